@@ -28,6 +28,10 @@ def link_storing(acc, cls, D) -> bool:
     return isinstance(acc, (D.AttrProxyAccessor, D.LinkAccessor))
 
 
+LIST_ATTRS = ("allocated_functions", "functions", "components", "ports", "inputs", "outputs", "exchanges", "constraints", "involved_functions",
+              "realized_components", "realized_functions", "owned_components", "states", "properties")
+
+
 def run(chk: lib.Check):
     import capellambse
     from capellambse.model import _descriptors as D, _obj, _xtype
@@ -86,6 +90,24 @@ def run(chk: lib.Check):
             uuidmod.uuid4 = lambda rng=rng: uuidmod.UUID(int=rng.getrandbits(128), version=4)
             hot_holders: list[str] = []
             if state == "edited":
+                # ask first, edit afterwards, ask again on the SAME model object: whatever a query remembers must not outlive an edit
+                primed = 0
+                for o_ in histories._objects(model, rng, 150):
+                    for an_ in dir(type(o_)):
+                        if isinstance(getattr(type(o_), an_, None), D.ReferenceSearchingAccessor):
+                            try:
+                                getattr(o_, an_)
+                                primed += 1
+                            except Exception:  # noqa: BLE001
+                                pass
+                    try:
+                        list(model.find_references(o_))
+                        model.search(type(o_))
+                        if getattr(o_, "parent", None) is not None and hasattr(o_.parent, "_element"):
+                            model.search(o_.xtype, below=o_.parent)
+                    except Exception:  # noqa: BLE001
+                        pass
+                stats["queries_evaluated_before_the_edits"] += primed
                 r = histories.HistoryRunner(model, rng)
                 for _ in range(40):
                     r.step()
@@ -452,6 +474,71 @@ def run(chk: lib.Check):
                                 hl = [A.H(e) for e in lst._elements]
                                 fl_cases.append(([[[h, km[i]] for h, i in zip(hl, li)], A.S(str(v)), hl],
                                                  [[A.H(e) for e in by._elements], [A.H(e) for e in ex._elements]]))
+                    # several values at once, and list-valued attributes (a member matches when its list contains ANY of the values)
+                    for fattr in ("name", "xtype"):
+                        try:
+                            ks_ = [getattr(x, fattr) for x in lst]
+                        except Exception:  # noqa: BLE001
+                            continue
+                        vals_ = list(dict.fromkeys(ks_))[:3]
+                        if len(vals_) < 2:
+                            continue
+                        for vs_ in (vals_[:2], vals_[:3], [vals_[0], "no such value ☃"]):
+                            try:
+                                by = getattr(lst, f"by_{fattr}")(*vs_, single=False)
+                                ex = getattr(lst, f"exclude_{fattr}s")(*vs_)
+                            except Exception as exn:  # noqa: BLE001
+                                chk.violation(f"filter-raises:{fattr}:multi:{type(exn).__name__}", f"filtering {type(o).__name__}.{attr} by {fattr} in {vs_!r} raised {exn!r}", {"model": spec0["name"]})
+                                continue
+                            li = [id(e) for e in lst._elements]
+                            want_by = [i for i, k in zip(li, ks_) if k in vs_]
+                            want_ex = [i for i, k in zip(li, ks_) if k not in vs_]
+                            stats["multi_value_filters_checked"] += 1
+                            if [id(e) for e in by._elements] != want_by or [id(e) for e in ex._elements] != want_ex:
+                                chk.violation(f"filter-partition:multi-value:{fattr}", f"{type(o).__name__}({o.uuid}).{attr}: by_{fattr}{tuple(vs_)!r} has {len(by)}, exclude has {len(ex)}, "
+                                              f"a scan gives {len(want_by)} / {len(want_ex)} of {len(li)}", {"model": spec0["name"], "owner": o.uuid, "relation": attr, "filter": fattr, "values": [str(v) for v in vs_]})
+                    for fattr in LIST_ATTRS:
+                        vals_per = []
+                        ok_ = True
+                        for x in lst:
+                            try:
+                                v_ = getattr(x, fattr)
+                            except AttributeError:
+                                vals_per.append(None)
+                                continue
+                            except Exception:  # noqa: BLE001
+                                ok_ = False
+                                break
+                            if not isinstance(v_, _obj.ElementList):
+                                ok_ = False
+                                break
+                            vals_per.append(list(v_))
+                        if not ok_ or not any(vals_per):
+                            continue
+                        pool_ = []
+                        for vp in vals_per:
+                            for y in vp or []:
+                                if y not in pool_:
+                                    pool_.append(y)
+                        for vs_ in ([pool_[0]], pool_[:2], pool_[:3]):
+                            if len(vs_) > len(pool_):
+                                continue
+                            try:
+                                by = getattr(lst, f"by_{fattr}")(*vs_, single=False)
+                                ex = getattr(lst, f"exclude_{fattr}s")(*vs_)
+                            except Exception as exn:  # noqa: BLE001
+                                stats[f"list-valued-filter-raises:{type(exn).__name__}"] += 1
+                                continue
+                            li = [id(e) for e in lst._elements]
+                            hit = [vp is not None and any(v in vp for v in vs_) for vp in vals_per]
+                            want_by = [i for i, h in zip(li, hit) if h]
+                            want_ex = [i for i, h in zip(li, hit) if not h]
+                            stats["list_valued_filters_checked"] += 1
+                            chk.note_case((spec0["name"], "filter-list", o.uuid, attr, fattr, len(vs_)), nontrivial=bool(want_by) and bool(want_ex))
+                            if [id(e) for e in by._elements] != want_by or [id(e) for e in ex._elements] != want_ex:
+                                chk.violation(f"filter-partition:list-valued:{len(vs_)}-values", f"{type(o).__name__}({o.uuid}).{attr}: by_{fattr}(<{len(vs_)} objects>) has {len(by)}, "
+                                              f"exclude_{fattr}s has {len(ex)}; a scan gives {len(want_by)} / {len(want_ex)} of {len(li)}",
+                                              {"model": spec0["name"], "owner": o.uuid, "relation": attr, "filter": fattr, "values": [getattr(v, "uuid", None) for v in vs_]})
                     # single-result lookups
                     names = [getattr(x, "name", None) for x in lst]
                     for nm in list(dict.fromkeys(names))[:2] + ["no such name ☃"]:
